@@ -18,7 +18,7 @@ REWRITES = ["reverse", "split_series", "one_section", "aggregate", "source_as_si
 
 def tie(ctx):
     kbad, kstats = kernel_selfcheck.run(ctx.seed, ctx.budget(1500, 30000))
-    keep = ("hydIncomp", "hydComp")
+    keep = ("hydIncomp", "hydComp", "realDensity")
     return {"cases": sum(v["inputs"] for k, v in kstats.items() if k.startswith(keep)),
             "disagreements": [b for b in kbad if b.get("kernel", "").startswith(keep)],
             "stats": {k: v for k, v in kstats.items() if k.startswith(keep)}}
